@@ -199,11 +199,13 @@ mech("openapi-rules-int32-int64-only",
 
 mech("openapi-numeric-rules-on-string-int64",
  "64-bit integers are published as type string; numeric bounds/const/in on them are either inert or compare a number with a string",
- [("C19","rules/numeric-*/int64/*",["schema-accepts-what-rules-reject","schema-rejects-what-rules-accept"],None)])
+ [("C19","rules/numeric-*/int64/*",["schema-accepts-what-rules-reject","schema-rejects-what-rules-accept"],None),
+  ("C06","oasjson/rules/numeric-*/int64/*",["wire-json-violates-openapi"],None)])
 
 mech("openapi-bounds-through-float64",
  "rule bounds are converted to float64: bounds beyond 2^53 are rounded",
- [("C19","rules/numeric-*/int64+int64number/bound={gt2p53,lt-2p53}*",["schema-accepts-what-rules-reject","schema-rejects-what-rules-accept"],None)])
+ [("C19","rules/numeric-*/int64+int64number/bound={gt2p53,lt-2p53}*",["schema-accepts-what-rules-reject","schema-rejects-what-rules-accept"],None),
+  ("C06","oasjson/rules/numeric-*/int64+int64number/bound={gt2p53,lt-2p53}*",["wire-json-violates-openapi"],None)])
 
 mech("openapi-document-named-by-short-service-name",
  "the OpenAPI plugin names its output <Service>.openapi.<ext> without the proto package: two packages that declare the same service name (the usual v1/v2 layout) in one invocation emit the same file name twice, which protoc rejects; tools that concatenate get an unparsable document",
@@ -212,7 +214,8 @@ mech("openapi-document-named-by-short-service-name",
 
 mech("openapi-inverted-range-as-conjunction",
  "a range rule whose upper bound lies below its lower bound means 'outside the interval' (gt_lt_exclusive etc.); the document publishes both bounds as a conjunction, which no number satisfies",
- [("C19","rules/numeric-{gt>lt,gte>lte}/*",["schema-rejects-what-rules-accept"],None)])
+ [("C19","rules/numeric-{gt>lt,gte>lte}/*",["schema-rejects-what-rules-accept"],None),
+  ("C06","oasjson/rules/numeric-{gt>lt,gte>lte}/*",["wire-json-violates-openapi"],None)])
 
 mech("hex-decode-error-swallowed",
  "bytes_encoding=HEX decoder ignores a hex decoding error and lets protojson base64-decode the same text: the handler receives bytes the client never sent",
